@@ -80,6 +80,22 @@ QuantCases ==
     \cup {Case(<<CloOp(<<>>, TrueBody), Val(T), Bin("LazyAnd")>>, NoEnv), Case(<<CloOp(<<>>, TrueBody)>>, NoEnv),
           Case(<<CloOp(<<>>, TrueBody), Un("Negate")>>, NoEnv), Case(<<Var("nope")>>, NoEnv)}
 
+\* several closure-taking operators in ONE expression: a parameter is bound only inside its own closure -
+\* after a quantifier (whether it ran over the whole collection or stopped early) the same name can be used
+\* again by a sibling, and reading it outside is an unknown variable
+SibColls == {Arr(<<Small(1), Small(2)>>), Arr(<<Small(2), Small(7)>>), SetV({Small(1), Small(2)}), Arr(<<>>), MapV({<<Str("a"), Small(1)>>})}
+SibRights == {<<Val(Arr(<<Small(7)>>)), CloOp(<<"p">>, GtOne("p")), Bin("Any")>>,
+              <<Val(Arr(<<Small(1), Small(7)>>)), CloOp(<<"p">>, GtOne("p")), Bin("All")>>,
+              <<Val(Arr(<<Small(7)>>)), CloOp(<<"q">>, GtOne("q")), Bin("All")>>,
+              <<Var("p"), Val(Small(0)), Bin("GreaterThan")>>,
+              TrueBody}
+SiblingCases ==
+    {Case(<<Val(c), CloOp(<<"p">>, GtOne("p")), Bin(q1), CloOp(<<>>, rhs), Bin(lz)>>, NoEnv) :
+        c \in SibColls, q1 \in {"All", "Any"}, lz \in {"LazyOr", "LazyAnd"}, rhs \in SibRights}
+    \cup {Case(<<Val(c), CloOp(<<"p">>, GtOne("p")), Bin(q1)>> \o rhs \o <<Bin(cmp)>>, NoEnv) :
+            c \in SibColls, q1 \in {"All", "Any"}, rhs \in SibRights, cmp \in {"Equal", "And"}}
+    \cup {Case(<<Val(c), CloOp(<<"p">>, GtOne("p")), Bin(q1), Var("p"), Bin("HeterogeneousEqual")>>, NoEnv) : c \in SibColls, q1 \in {"All", "Any"}}
+
 \* ---- stack family: all sequences of length <= 3 over a small alphabet
 Alphabet == {Val(Small(1)), Val(T), Un("Negate"), Un("Length"), Bin("Add"), Bin("And"), Bin("LazyOr"), CloOp(<<>>, TrueBody)}
 StackCases ==
@@ -132,7 +148,7 @@ Next ==
     /\ CASE Family = "binary"  -> \E a \in Values, b \in Values : case_' = Case(<<Val(a), Val(b), Bin(seed)>>, NoEnv)
          [] Family = "unary"   -> case_' \in UnaryCases
          [] Family = "stack"   -> case_' \in StackCases
-         [] Family = "closure" -> case_' \in (LazyCases \cup QuantCases)
+         [] Family = "closure" -> case_' \in (LazyCases \cup QuantCases \cup SiblingCases)
          [] Family = "compose" -> case_' \in ComposeCases
          [] Family = "extern"  -> case_' \in ExternCases
 
